@@ -52,14 +52,23 @@ class SweepOb(Obligation):
                          forall=["every kind × scalar / list with None holes / dict over every mode subset, singly and in pairs"], enumerated=["order"])
         self.order = order
 
-    def specs(self, kind):
-        n = self.order
+    @staticmethod
+    def par(kind, mode):
+        """the parameter requested for `mode`: numeric parameters differ from mode to mode, so that a value reaching the wrong mode is seen"""
         p = PARAM[kind]
-        out = [("scalar", p, set(range(n)))]
+        return p if isinstance(p, bool) else p + mode * (1 if isinstance(p, int) else 0.0625)
+
+    def specs(self, kind):
+        """-> (form, value, {mode: requested parameter})"""
+        n = self.order
+        out = [("scalar", PARAM[kind], {m: PARAM[kind] for m in range(n)})]
         for k in range(1, n + 1):
             for ms in itertools.combinations(range(n), k):
-                out.append(("list", [p if i in ms else None for i in range(n)], set(ms)))
-                out.append(("dict", {i: p for i in ms}, set(ms)))
+                req = {i: self.par(kind, i) for i in ms}
+                out.append(("list", [req.get(i) for i in range(n)], req))
+                out.append(("dict", {i: req[i] for i in ms}, req))
+                if k > 1:
+                    out.append(("dict, keys descending", {i: req[i] for i in reversed(ms)}, req))
         return out
 
     def run(self):
@@ -87,17 +96,17 @@ class SweepOb(Obligation):
             return None
         for kind in KINDS:
             for form, val, modes in self.specs(kind):
-                want = {m: ((kind, PARAM[kind]) if m in modes else (None, None)) for m in range(n)}
+                want = {m: ((kind, modes[m]) if m in modes else (None, None)) for m in range(n)}
                 r = check({kind: val}, want)
                 if r:
                     bad.append(r)
         for k1, k2 in itertools.combinations(KINDS, 2):
             for f1, v1, m1 in self.specs(k1):
                 for f2, v2, m2 in self.specs(k2):
-                    if m1 & m2:
+                    if set(m1) & set(m2):
                         want = None
                     else:
-                        want = {m: ((k1, PARAM[k1]) if m in m1 else (k2, PARAM[k2]) if m in m2 else (None, None)) for m in range(n)}
+                        want = {m: ((k1, m1[m]) if m in m1 else (k2, m2[m]) if m in m2 else (None, None)) for m in range(n)}
                     r = check({k1: v1, k2: v2}, want)
                     if r:
                         bad.append(r)
@@ -249,6 +258,9 @@ def obligations(tier):
     from .c09 import BoundedOb
     from . import e2e_native
     obs.append(BoundedOb(f"{PID}/bounded/native survey: the returned factor of every constrained mode is feasible", "tensorly.decomposition:constrained_parafac", lambda: e2e_native.c11(tier), dict(order="3 (4 thorough)", ranks="1-3", constraints=8, specifications="scalar, dict, list"), "seed 0; signed and non-negative data, SVD and random initialisation, outer/inner budgets (0,1), (1,1), (3,5)", pid=PID))
+    # ---- ConstrainedCP hands every constraint specification to constrained_parafac
+    from . import wrappers as _W
+    obs.extend(_W.obligations(PID, select=("ConstrainedCP",)))
     return obs
 
 
